@@ -11,24 +11,36 @@
 (*      wake-up is consumed without being processed); the worker survives. *)
 (***************************************************************************)
 EXTENDS TVCommon
-VARIABLES quiet, lastOff, owed, eaten, wpc, wAtChange, script, late, l, viol, judged, cur
-tvars == <<quiet, lastOff, owed, eaten, wpc, wAtChange, script, late, l, viol, judged, cur>>
+VARIABLES quiet, lastOff, owed, eaten, wpc, wAtChange, script, late, l, viol, judged, cur, opq
+tvars == <<quiet, lastOff, owed, eaten, wpc, wAtChange, script, late, l, viol, judged, cur, opq>>
+
+\* The control messages are served in the order they were sent (opq: sent, not yet answered).  "The reply has been sent"
+\* is the daemon thread's own `d.after_request` hook (fired after handle_request() has written the answer), not the moment
+\* the test peer happens to read it; an enabling / starting message "begins" when the daemon turns to it, i.e. when it is
+\* sent with nothing before it in the queue or when the message before it has been answered.
+Off == {"disable", "stop", "reset"}
+On == {"enable", "start"}
 
 RECURSIVE Join(_)
 Join(sq) == IF sq = <<>> THEN "" ELSE sq[1] \o (IF Len(sq) > 1 THEN "-" ELSE "") \o Join(Tail(sq))
 
-TVInit == /\ quiet = FALSE /\ lastOff = "" /\ owed = FALSE /\ eaten = FALSE /\ wpc = "wait" /\ wAtChange = "" /\ script = <<>> /\ late = FALSE
+TVInit == /\ quiet = FALSE /\ lastOff = "" /\ owed = FALSE /\ eaten = FALSE /\ wpc = "wait" /\ wAtChange = "" /\ script = <<>> /\ late = FALSE /\ opq = <<>>
           /\ l = 1 /\ viol = {} /\ judged = 0 /\ cur = -1
 TVReset == /\ l <= Len(Rec) /\ Rec[l].ev = "reset"
-           /\ quiet' = FALSE /\ lastOff' = "" /\ owed' = FALSE /\ eaten' = FALSE /\ wpc' = "wait" /\ wAtChange' = "" /\ script' = Rec[l].script /\ late' = FALSE
+           /\ quiet' = FALSE /\ lastOff' = "" /\ owed' = FALSE /\ eaten' = FALSE /\ wpc' = "wait" /\ wAtChange' = "" /\ script' = Rec[l].script /\ late' = FALSE /\ opq' = <<>>
            /\ cur' = Rec[l].id /\ l' = l + 1 /\ UNCHANGED <<viol, judged>>
 
 TVEvent == /\ l <= Len(Rec) /\ Rec[l].ev \in {"kick", "begin", "reply", "hook", "dispatch", "skipped"}
            /\ LET e == Rec[l] IN
-              /\ quiet' = CASE e.ev = "begin" /\ e.op \in {"enable", "start"} -> FALSE
-                            [] e.ev = "reply" /\ e.op \in {"disable", "stop", "reset"} -> TRUE
-                            [] OTHER -> quiet
-              /\ lastOff' = IF e.ev = "reply" /\ e.op \in {"disable", "stop", "reset"} THEN e.op ELSE lastOff
+              /\ LET answered == e.ev = "hook" /\ e.p = "d.after_request" /\ opq # <<>>
+                     done == IF answered THEN Head(opq) ELSE ""
+                     rest == IF answered THEN Tail(opq) ELSE opq IN
+                 /\ opq' = IF e.ev = "begin" THEN Append(opq, e.op) ELSE rest
+                 /\ quiet' = CASE e.ev = "begin" /\ opq = <<>> /\ e.op \in On -> FALSE
+                               [] answered /\ rest # <<>> /\ Head(rest) \in On -> FALSE
+                               [] answered /\ done \in Off -> TRUE
+                               [] OTHER -> quiet
+                 /\ lastOff' = IF answered /\ done \in Off THEN done ELSE lastOff
               /\ owed' = CASE e.ev = "kick" -> TRUE
                            [] e.ev = "hook" /\ e.p = "c.after_dropkick" -> FALSE
                            [] e.ev = "dispatch" /\ ~quiet -> FALSE     \* served before any disabling reply went out
@@ -56,8 +68,8 @@ TVEnd == /\ l <= Len(Rec) /\ Rec[l].ev = "end"
                 \cup (IF e.worker_alive /\ e.final_active /\ e.final_has_kick /\ owed /\ ~late
                       THEN {"C12/P2/kick-never-processed/script=" \o Join(script) \o (IF eaten THEN "/wake-up-consumed-while-disabled" ELSE "")} ELSE {})
                 \cup (IF e.unanswered > 0 THEN {"C12/control-message-unanswered/script=" \o Join(script)} ELSE {}), cur)
-         /\ l' = l + 1 /\ UNCHANGED <<quiet, lastOff, owed, eaten, wpc, wAtChange, script, late, judged, cur>>
-TVOther == /\ l <= Len(Rec) /\ Rec[l].ev = "threads" /\ l' = l + 1 /\ UNCHANGED <<quiet, lastOff, owed, eaten, wpc, wAtChange, script, late, viol, judged, cur>>
+         /\ l' = l + 1 /\ UNCHANGED <<quiet, lastOff, owed, eaten, wpc, wAtChange, script, late, judged, cur, opq>>
+TVOther == /\ l <= Len(Rec) /\ Rec[l].ev = "threads" /\ l' = l + 1 /\ UNCHANGED <<quiet, lastOff, owed, eaten, wpc, wAtChange, script, late, viol, judged, cur, opq>>
 TVNext == TVReset \/ TVEvent \/ TVEnd \/ TVOther
 TVSpec == TVInit /\ [][TVNext]_tvars
 Post == PostOK
